@@ -355,8 +355,8 @@ func c09JudgeInner(c c09Case, res opResult) string {
 				tol = 1e-12 * math.Max(1, math.Abs(ref))
 			}
 			if math.IsNaN(got) || math.IsInf(got, 0) {
-				if c.op == "LogSoftmax" && math.IsInf(got, -1) && f32 && ref < -3.4e38 {
-					continue // the true value is below the float32 range
+				if c.op == "LogSoftmax" && math.IsInf(got, -1) && ((f32 && ref < -3.4e38) || math.IsInf(ref, -1)) {
+					continue // the true value is below the range of the element type
 				}
 				bad = fmt.Sprintf("slice %d: non-finite result %v from finite inputs (reference %v)", no, got, ref)
 				break
@@ -420,7 +420,7 @@ func TestC09(t *testing.T) {
 		"softmax tolerances of DESIGN.md 1.6; for ArgMax slices containing NaN only 'index in range' is asserted; reductions of NaN are not generated (ONNX leaves the ordering undefined)")
 	defer reportKnownFindings("C09")
 
-	check(t, "ops", 40000, 150000, func(rt *rapid.T) {
+	check(t, "ops", 40000, 400000, func(rt *rapid.T) {
 		c := c09Gen(rt)
 		res := runOp(c.op, c.node, []tensor.Tensor{cloneT(c.x)})
 		cls := []string{"op-" + c.op, fmt.Sprintf("rank-%d", len(c.x.Shape())), "dtype-" + c.x.Dtype().String()}
